@@ -1,5 +1,6 @@
 SPECIFICATION FilterSpec
 CONSTANTS
+  Which = "filter"
   DeepAlpha <- Alpha5
   DeepMax = 3
   WideAlpha <- AlphaAll
@@ -12,4 +13,4 @@ INVARIANT LawFilterAgree
 INVARIANT LawEmptyFilter
 INVARIANT LawWeaker
 INVARIANT LawStrStronger
-POSTCONDITION VisitedFilter
+POSTCONDITION Visited
